@@ -57,7 +57,7 @@ var opaqueTypes = map[string]bool{
 	"bufio.Scanner": true, "encoding/json.Decoder": true, "bytes.Buffer": true, "net/url.Userinfo": true,
 	"reflect.Value": true, "sync.Pool": true, "sync.WaitGroup": true, "sync.Map": true,
 	"encoding/json.Encoder": true, "log/slog.TextHandler": true, "log/slog.HandlerOptions": true,
-	"net/http.Request": true, "net/http.Header": false, "context.Context": false,
+	"net/http.Request": false, "net/http.Header": false, "context.Context": false,
 	"time.Timer": true, "time.Ticker": true, "log/slog.Logger": true,
 }
 
